@@ -117,6 +117,40 @@ def case(rng, n_grains=None, pair=None, regime=None, okind=None, lkind=None, fki
     return c
 
 
+def block_sizes(tier="quick", cap=None):
+    """Grain counts at which a size-dependent code path (block / stride / chunk / slice-bound logic, `[-0:]`
+    tails, power-of-two fast paths) changes behaviour: every power of two up to 2^14 (thorough: 2^16) with both
+    neighbours, and multiples of 64 / 128 / 256 / 1000 / 1024.  Added after the seeded change C03d (mean strain
+    energy summed in blocks of 128: wrong exactly when n_grains is a multiple of 128), which no generator
+    reached -- sizes were 1..64 and round decimal numbers."""
+    kmax = 14 if tier == "quick" else 16
+    s = set()
+    for k in range(kmax + 1):
+        s |= {2 ** k - 1, 2 ** k, 2 ** k + 1}
+    mult = {64: (1, 2, 3, 5), 128: (1, 2, 3, 5, 7), 256: (1, 3, 5), 1000: (1, 2, 3, 5, 10), 1024: (1, 2, 3, 5, 9)}
+    if tier != "quick":
+        mult = {64: range(1, 17), 128: range(1, 33), 256: range(1, 17), 1000: (1, 2, 3, 5, 10, 20, 50, 100),
+                1024: range(1, 33)}
+    for b, ks in mult.items():
+        s |= {b * k for k in ks}
+    return sorted(x for x in s if x >= 1 and (cap is None or x <= cap))
+
+
+def block_cases(rng, tier="quick", cap=None, both_regimes_upto=2049):
+    """one `derivatives` case per block-boundary size (both dislocation regimes up to `both_regimes_upto` grains,
+    alternating above), phase/fabric pairs and volume families rotating, Haar orientations, M* > 0"""
+    out = []
+    for i, n in enumerate(block_sizes(tier, cap)):
+        regimes = (4, 6) if n <= both_regimes_upto else ((4, 6)[i % 2],)
+        for j, regime in enumerate(regimes):
+            c = case(rng, n_grains=n, pair=VALID_PAIRS[(i + j) % 6], regime=regime, okind="haar",
+                     lkind=L_KINDS[(i + 2 * j) % len(L_KINDS)], fkind=("dirichlet", "uniform", "dominant")[(i + j) % 3])
+            c["M"] = max(c["M"], 1.0)
+            c["kinds"] = c["kinds"] + ("block",)
+            out.append(c)
+    return out
+
+
 def flat_inputs(c):
     return (list(c["O"].reshape(-1)) + list(c["f"]) + list(c["D"].reshape(-1))
             + list(c["L"].reshape(-1)) + list(c["S"].reshape(-1))
